@@ -29,6 +29,7 @@ type c17Case struct {
 	Def     string `json:"definition,omitempty"`
 	GLen    int    `json:"glen,omitempty"`
 	Slice   []int  `json:"slice,omitempty"` // [s,e) forward window or nil
+	Input   []byte `json:"input,omitempty"` // fuzz mode: raw bytes offered to the reader
 }
 
 // fastaAlphabet: printable residues 33..126 without '>'.
@@ -83,6 +84,8 @@ func readAll(text string) fastaRead {
 
 func c17Check(c c17Case) *Violation {
 	switch c.Mode {
+	case "fuzz":
+		return c17Fuzz(c.Input)
 	case "roundtrip":
 		var buf bytes.Buffer
 		var werr error
@@ -322,38 +325,55 @@ func TestC17(t *testing.T) {
 	rapidPart(t, c17Prop, st, "rapid", pick(4000, 60000), c17Gen)
 }
 
-// FuzzC17 (thorough): parse arbitrary bytes as FASTA; whatever is accepted must survive write -> read unchanged.
+// c17Fuzz: arbitrary bytes parsed as FASTA; whatever is accepted (and lies in the writable domain) must survive
+// write -> read unchanged.
+func c17Fuzz(in []byte) *Violation {
+	if len(in) == 0 || in[0] != '>' {
+		return nil
+	}
+	rd := readAll(string(in))
+	if rd.panic != nil {
+		return panicViolation("FASTA reader", rd.panic)
+	}
+	if rd.err != "" {
+		return nil
+	}
+	var buf bytes.Buffer
+	w := seqio.NewWriter(&buf, seqio.FastaFile)
+	for i := range rd.descs {
+		if bytes.ContainsAny(rd.datas[i], ">\r\n") || strings.ContainsAny(rd.descs[i], "\r\n") {
+			return nil // outside the writable domain of the statement
+		}
+		w.WriteSeq(seqio.Fasta{Desc: rd.descs[i], Data: rd.datas[i]})
+	}
+	rd2 := readAll(buf.String())
+	if rd2.panic != nil {
+		return panicViolation("FASTA reader (second generation)", rd2.panic)
+	}
+	if rd2.err != "" || len(rd2.descs) != len(rd.descs) {
+		return viol("framing", "%d records re-read as %d (%s)", len(rd.descs), len(rd2.descs), rd2.err)
+	}
+	for i := range rd.descs {
+		if rd.descs[i] != rd2.descs[i] || !bytes.Equal(rd.datas[i], rd2.datas[i]) {
+			return viol("roundtrip", "record %d changed: %q/%q vs %q/%q", i, rd.descs[i], rd.datas[i], rd2.descs[i], rd2.datas[i])
+		}
+	}
+	return nil
+}
+
+// FuzzC17 (thorough): native coverage-guided fuzzing of parse -> write -> parse.
 func FuzzC17(f *testing.F) {
 	for _, s := range []string{">a\nACGT\n", ">a\n\n>b\nAC\nGT\n", ">\n", ">x\r\nAC\r\nGT\r\n", ">a desc\n" + strings.Repeat("A", 70) + "\n" + strings.Repeat("C", 70) + "\n"} {
 		f.Add([]byte(s))
 	}
 	f.Fuzz(func(t *testing.T, in []byte) {
-		if len(in) > 1<<16 || len(in) == 0 || in[0] != '>' {
+		if len(in) > 1<<16 {
 			return
 		}
-		rd := readAll(string(in))
-		if rd.panic != nil {
-			t.Fatalf("VIOLATION C17/fuzz [panic]: %s", rd.panic.Value)
-		}
-		if rd.err != "" {
-			return
-		}
-		var buf bytes.Buffer
-		w := seqio.NewWriter(&buf, seqio.FastaFile)
-		for i := range rd.descs {
-			if bytes.ContainsAny(rd.datas[i], ">\r\n") || strings.ContainsAny(rd.descs[i], "\r\n") {
-				return // outside the writable domain of the statement
-			}
-			w.WriteSeq(seqio.Fasta{Desc: rd.descs[i], Data: rd.datas[i]})
-		}
-		rd2 := readAll(buf.String())
-		if rd2.err != "" || len(rd2.descs) != len(rd.descs) {
-			t.Fatalf("VIOLATION C17/fuzz [framing]: %d records re-read as %d (%s)", len(rd.descs), len(rd2.descs), rd2.err)
-		}
-		for i := range rd.descs {
-			if rd.descs[i] != rd2.descs[i] || !bytes.Equal(rd.datas[i], rd2.datas[i]) {
-				t.Fatalf("VIOLATION C17/fuzz [roundtrip]: record %d changed: %q/%q vs %q/%q", i, rd.descs[i], rd.datas[i], rd2.descs[i], rd2.datas[i])
-			}
+		c := c17Case{Mode: "fuzz", Input: append([]byte(nil), in...)}
+		if v := c17Check(c); v != nil {
+			writeFail("C17", "fuzz", mustJSON(c), v)
+			t.Fatalf("VIOLATION C17/fuzz [%s]: %s", v.Kind, v.Msg)
 		}
 	})
 }
